@@ -468,7 +468,7 @@ def _words_job(args):
 
 def run(ctx):
     cov = ctx.coverage
-    periods = list(range(2, 61)) if not ctx.quick else [2, 3, 5, 14, 30, 60]
+    periods = list(range(2, 61)) if not ctx.quick else [2, 3, 5, 7, 9, 10, 12, 14, 20, 21, 26, 30, 50, 60]
     jobs = [([p], ctx.quick) for p in periods]
     sigs = set()
 
